@@ -106,9 +106,26 @@ func init() {
 			Runs: []Run{
 				{Harness: "zzverif/zzh.ZZC01Basic", Desc: "one package: @immutable/@constructor/@mutable presence, compound operator (all 11) and ++/-- symbolic; assignment, compound, mutable field, index, inc/dec, read, constructor body",
 					Bounds: map[string]interface{}{"skeleton": "c01SrcD", "holes": 5}},
+				{Harness: "zzverif/zzh.ZZC01Methods", Desc: "pointer/value receiver methods, receiver overwrite and increment, nesting in if/for/switch/select/closure/defer/go, value variable, unannotated twin; annotations on T, N and the constructor list symbolic", Bounds: map[string]interface{}{"skeleton": "c01SrcMethods", "holes": 3}},
+				{Harness: "zzverif/zzh.ZZC01Init", Desc: "writes in package-level initialisers: before any function, after a constructor in the same file, in another file of the package (3 files)", Bounds: map[string]interface{}{"skeleton": "c01SrcInit{A,B,C}", "holes": 2}},
+				{Harness: "zzverif/zzh.ZZCrossImmCtor", Desc: "type in package d, uses in the importing package u (facts), incl. a function of u that shares the constructor's name", Bounds: map[string]interface{}{"skeleton": "crossSrc{D,U}", "holes": 4}},
 			},
 			Outside:     []string{"generics; promoted fields through embedding; parenthesised left-hand sides"},
 			Assumptions: []string{"program skeletons are parsed and type-checked by the real go/parser and go/types; their AST is imported into the interpreter heap; go/types objects are host objects queried through accessor methods"},
+		},
+	)
+}
+
+func init() {
+	props = append(props,
+		Prop{
+			ID: "C02",
+			Runs: []Run{
+				{Harness: "zzverif/zzh.ZZC02Basic", Desc: "every instantiation form (T{}, &T{}, elided slice/map element, new(T), var x T, var x,y T) and the negatives (*T var, blank, initialised var, unannotated type), inside/outside the listed constructors, package-level vars before/after a constructor; constructor list spelling symbolic", Bounds: map[string]interface{}{"skeleton": "c02SrcA", "holes": 1}},
+				{Harness: "zzverif/zzh.ZZCrossImmCtor", Desc: "instantiations in the importing package, incl. inside a same-named function of the importer", Bounds: map[string]interface{}{"skeleton": "crossSrc{D,U}", "holes": 4}},
+			},
+			Outside:     []string{"generics; type parameters; struct embedding of the annotated type; reflect-based instantiation"},
+			Assumptions: []string{"program skeletons parsed/type-checked by go/parser + go/types; facts passed in-process"},
 		},
 	)
 }
